@@ -1,13 +1,582 @@
 import Props.Defs
-namespace Coma.Proofs
+namespace Coma.Proofs.PO
 open Coma Coma.Spec
+
+/-! ## Generic lemmas: `insertByKey`, `isort`, `groupAdj`, `minByFrom` -/
+section Generic
+variable {α : Type} (key : α → Int)
+
+theorem insertByKey_perm (a : α) (l : List α) : (insertByKey key a l).Perm (a :: l) := by
+  induction l with
+  | nil => exact List.Perm.refl _
+  | cons b bs ih =>
+    simp only [insertByKey]
+    split
+    · exact List.Perm.refl _
+    · exact (List.Perm.cons b ih).trans (List.Perm.swap a b bs)
+
+theorem isort_perm (l : List α) : (isort key l).Perm l := by
+  induction l with
+  | nil => exact List.Perm.refl _
+  | cons x xs ih => exact (insertByKey_perm key x _).trans (List.Perm.cons x ih)
+
+theorem mem_isort {a : α} {l : List α} : a ∈ isort key l ↔ a ∈ l := (isort_perm key l).mem_iff
+
+theorem insertByKey_sorted (a : α) (l : List α) (h : l.Pairwise (fun a b => key a ≤ key b)) :
+    (insertByKey key a l).Pairwise (fun a b => key a ≤ key b) := by
+  induction l with
+  | nil => simp [insertByKey]
+  | cons b bs ih =>
+    simp only [insertByKey]
+    rw [List.pairwise_cons] at h
+    split
+    · rename_i hab
+      refine List.pairwise_cons.2 ⟨?_, List.pairwise_cons.2 h⟩
+      intro c hc
+      rcases List.mem_cons.1 hc with rfl | hc
+      · exact hab
+      · exact Int.le_trans hab (h.1 c hc)
+    · rename_i hab
+      refine List.pairwise_cons.2 ⟨?_, ih h.2⟩
+      intro c hc
+      rcases List.mem_cons.1 ((insertByKey_perm key a bs).mem_iff.1 hc) with rfl | hc
+      · omega
+      · exact h.1 c hc
+
+theorem isort_sorted (l : List α) : (isort key l).Pairwise (fun a b => key a ≤ key b) := by
+  induction l with
+  | nil => exact List.Pairwise.nil
+  | cons x xs ih => exact insertByKey_sorted key x _ ih
+
+/-- stability of insertion: the subsequence of elements with a given key is unchanged -/
+theorem filter_insertByKey (k : Int) (a : α) (l : List α) :
+    (insertByKey key a l).filter (fun y => decide (key y = k)) =
+      (a :: l).filter (fun y => decide (key y = k)) := by
+  induction l with
+  | nil => rfl
+  | cons b bs ih =>
+    simp only [insertByKey]
+    split
+    · rfl
+    · rename_i hab
+      rw [List.filter_cons, ih]
+      by_cases h1 : key a = k <;> by_cases h2 : key b = k <;> simp [h1, h2]
+      omega
+
+/-- `isort` is stable -/
+theorem filter_isort (k : Int) (l : List α) :
+    (isort key l).filter (fun y => decide (key y = k)) = l.filter (fun y => decide (key y = k)) := by
+  induction l with
+  | nil => rfl
+  | cons x xs ih =>
+    show (insertByKey key x (isort key xs)).filter _ = _
+    rw [filter_insertByKey, List.filter_cons, List.filter_cons, ih]
+
+/-- `groupAdj` is `itertools.groupby`: first run, then the groups of the rest -/
+theorem groupAdj_cons (x : α) (xs : List α) :
+    groupAdj key (x :: xs) =
+      (x :: xs.takeWhile (fun y => decide (key y = key x))) ::
+        groupAdj key (xs.dropWhile (fun y => decide (key y = key x))) := by
+  induction xs generalizing x with
+  | nil => rfl
+  | cons y ys ih =>
+    have e : groupAdj key (x :: y :: ys) =
+      (match groupAdj key (y :: ys) with
+        | (y' :: g) :: gs => if key x = key y' then (x :: y' :: g) :: gs else [x] :: (y' :: g) :: gs
+        | _ => [[x]]) := rfl
+    rw [e, ih y]
+    simp only [List.takeWhile_cons, List.dropWhile_cons]
+    by_cases h : key x = key y
+    · rw [h]; simp
+    · have h' : ¬ key y = key x := fun e => h e.symm
+      simp [h, h', ih y]
+
+/-- in a key-sorted list whose keys are all `≥ k`, the run of `k`s is a prefix -/
+theorem sorted_span (k : Int) (xs : List α) (hk : ∀ y ∈ xs, k ≤ key y)
+    (hs : xs.Pairwise (fun a b => key a ≤ key b)) :
+    (∀ a ∈ xs.takeWhile (fun y => decide (key y = k)), key a = k) ∧
+    (∀ b ∈ xs.dropWhile (fun y => decide (key y = k)), k < key b) := by
+  induction xs with
+  | nil => simp
+  | cons y ys ih =>
+    rw [List.pairwise_cons] at hs
+    have ih' := ih (fun z hz => hk z (List.mem_cons_of_mem _ hz)) hs.2
+    by_cases h : key y = k
+    · simp only [List.takeWhile_cons, List.dropWhile_cons, h, decide_true, if_true]
+      refine ⟨?_, ih'.2⟩
+      intro a ha
+      rcases List.mem_cons.1 ha with rfl | ha
+      · exact h
+      · exact ih'.1 a ha
+    · have hlt : k < key y := by
+        have := hk y List.mem_cons_self
+        omega
+      simp only [List.takeWhile_cons, List.dropWhile_cons, h, decide_false]
+      refine ⟨by simp, ?_⟩
+      intro b hb
+      rcases List.mem_cons.1 hb with rfl | hb
+      · exact hlt
+      · have := hs.1 b hb
+        omega
+
+/-- the groups of a key-sorted list are exactly the non-empty key classes, in list order -/
+theorem mem_groupAdj_sorted_aux : ∀ (n : Nat) (L : List α), L.length ≤ n →
+    L.Pairwise (fun a b => key a ≤ key b) →
+    ∀ g, (g ∈ groupAdj key L ↔ ∃ x ∈ L, g = L.filter (fun y => decide (key y = key x))) := by
+  intro n
+  induction n with
+  | zero =>
+    intro L hL _ g
+    have : L = [] := List.eq_nil_of_length_eq_zero (by omega)
+    subst this
+    simp [groupAdj]
+  | succ n ih =>
+    intro L hL hs g
+    cases L with
+    | nil => simp [groupAdj]
+    | cons x xs =>
+      rw [List.pairwise_cons] at hs
+      obtain ⟨hA, hB⟩ := sorted_span key (key x) xs hs.1 hs.2
+      have hAB := @List.takeWhile_append_dropWhile _ (fun y => decide (key y = key x)) xs
+      have hBs : (xs.dropWhile (fun y => decide (key y = key x))).Pairwise
+          (fun a b => key a ≤ key b) := hs.2.sublist (List.dropWhile_sublist _)
+      have hBl : (xs.dropWhile (fun y => decide (key y = key x))).length ≤ n := by
+        have := (List.dropWhile_sublist (fun y => decide (key y = key x)) (l := xs)).length_le
+        simp only [List.length_cons] at hL
+        omega
+      rw [groupAdj_cons, List.mem_cons, ih _ hBl hBs g]
+      generalize xs.takeWhile (fun y => decide (key y = key x)) = A at *
+      generalize xs.dropWhile (fun y => decide (key y = key x)) = B at *
+      subst hAB
+      have F1 : (x :: (A ++ B)).filter (fun y => decide (key y = key x)) = x :: A := by
+        rw [List.filter_cons, List.filter_append]
+        have h1 : A.filter (fun y => decide (key y = key x)) = A :=
+          List.filter_eq_self.2 (fun a ha => by simp [hA a ha])
+        have h2 : B.filter (fun y => decide (key y = key x)) = [] :=
+          List.filter_eq_nil_iff.2 (fun b hb => by have := hB b hb; simp; omega)
+        simp [h1, h2]
+      have F2 : ∀ y ∈ B, (x :: (A ++ B)).filter (fun z => decide (key z = key y)) =
+          B.filter (fun z => decide (key z = key y)) := by
+        intro y hy
+        have hy' := hB y hy
+        rw [List.filter_cons, List.filter_append]
+        have h1 : A.filter (fun z => decide (key z = key y)) = [] :=
+          List.filter_eq_nil_iff.2 (fun a ha => by have := hA a ha; simp; omega)
+        have h2 : ¬ key x = key y := by omega
+        simp [h1, h2]
+      constructor
+      · rintro (rfl | ⟨y, hy, rfl⟩)
+        · exact ⟨x, List.mem_cons_self, F1.symm⟩
+        · exact ⟨y, List.mem_cons_of_mem _ (List.mem_append_right _ hy), (F2 y hy).symm⟩
+      · rintro ⟨z, hz, rfl⟩
+        rcases List.mem_cons.1 hz with rfl | hz
+        · exact Or.inl F1
+        · rcases List.mem_append.1 hz with hz | hz
+          · rw [hA z hz]
+            exact Or.inl F1
+          · exact Or.inr ⟨z, hz, F2 z hz⟩
+
+theorem mem_groupAdj_sorted {L : List α} (hs : L.Pairwise (fun a b => key a ≤ key b))
+    (g : List α) :
+    g ∈ groupAdj key L ↔ ∃ x ∈ L, g = L.filter (fun y => decide (key y = key x)) :=
+  mem_groupAdj_sorted_aux key L.length L (Nat.le_refl _) hs g
+
+end Generic
+
+section MinBy
+variable {α : Type} (f : α → Int)
+
+theorem minByFrom_le_seed (a : α) (l : List α) : f (minByFrom f a l) ≤ f a := by
+  induction l generalizing a with
+  | nil => exact Int.le_refl _
+  | cons b bs ih =>
+    simp only [minByFrom]
+    split
+    · have := ih b
+      omega
+    · exact ih a
+
+/-- `minByFrom` returns the FIRST minimum: strictly smaller than everything before it,
+    at most everything after it -/
+theorem minByFrom_split (a : α) (l : List α) :
+    ∃ l1 l2, a :: l = l1 ++ minByFrom f a l :: l2 ∧
+      (∀ c ∈ l1, f (minByFrom f a l) < f c) ∧ (∀ c ∈ l2, f (minByFrom f a l) ≤ f c) := by
+  induction l generalizing a with
+  | nil => exact ⟨[], [], rfl, by simp, by simp⟩
+  | cons b bs ih =>
+    simp only [minByFrom]
+    split
+    · rename_i h
+      obtain ⟨l1, l2, e, h1, h2⟩ := ih b
+      have hle := minByFrom_le_seed f b bs
+      refine ⟨a :: l1, l2, by rw [e]; rfl, ?_, h2⟩
+      intro c hc
+      rcases List.mem_cons.1 hc with rfl | hc
+      · omega
+      · exact h1 c hc
+    · rename_i h
+      obtain ⟨l1, l2, e, h1, h2⟩ := ih a
+      generalize minByFrom f a bs = m at *
+      cases l1 with
+      | nil =>
+        simp only [List.nil_append, List.cons.injEq] at e
+        obtain ⟨rfl, rfl⟩ := e
+        refine ⟨[], b :: bs, rfl, by simp, ?_⟩
+        intro c hc
+        rcases List.mem_cons.1 hc with rfl | hc
+        · omega
+        · exact h2 c hc
+      | cons a' l1' =>
+        simp only [List.cons_append, List.cons.injEq] at e
+        obtain ⟨rfl, rfl⟩ := e
+        refine ⟨a :: b :: l1', l2, rfl, ?_, h2⟩
+        have ha := h1 a List.mem_cons_self
+        intro c hc
+        rcases List.mem_cons.1 hc with rfl | hc
+        · exact ha
+        · rcases List.mem_cons.1 hc with rfl | hc
+          · omega
+          · exact h1 c (List.mem_cons_of_mem _ hc)
+
+theorem minBy?_split {g : List α} {p : α} (h : minBy? f g = some p) :
+    ∃ l1 l2, g = l1 ++ p :: l2 ∧ (∀ c ∈ l1, f p < f c) ∧ (∀ c ∈ l2, f p ≤ f c) := by
+  cases g with
+  | nil => simp [minBy?] at h
+  | cons a l =>
+    simp only [minBy?, Option.some.injEq] at h
+    subst h
+    exact minByFrom_split f a l
+
+/-- a unique strict minimum is what `minBy?` returns -/
+theorem minBy?_of_unique_min {g : List α} {c : α} (hc : c ∈ g)
+    (hmin : ∀ c' ∈ g, c' ≠ c → f c < f c') : minBy? f g = some c := by
+  cases g with
+  | nil => simp at hc
+  | cons a l =>
+    obtain ⟨l1, l2, e, h1, h2⟩ := minByFrom_split f a l
+    simp only [minBy?, Option.some.injEq]
+    generalize minByFrom f a l = m at *
+    apply Classical.byContradiction
+    intro hne
+    have hm : m ∈ a :: l := by rw [e]; simp
+    have hlt := hmin m hm hne
+    rw [e] at hc
+    rcases List.mem_append.1 hc with hc | hc
+    · have := h1 c hc
+      omega
+    · rcases List.mem_cons.1 hc with rfl | hc
+      · exact hne rfl
+      · have := h2 c hc
+        omega
+
+end MinBy
+
+/-! ## `dedupByKey` -/
+section Dedup
+variable (key : Pr → Int)
+
+/-- a survivor of `dedupByKey` is the FIRST minimum-distance element of its key class -/
+theorem dedupByKey_firstMin {ps : List Pr} {p : Pr} (hp : p ∈ dedupByKey key ps) :
+    ∃ l1 l2, ps = l1 ++ p :: l2 ∧ (∀ c ∈ l1, key c = key p → p.dist < c.dist) ∧
+      (∀ c ∈ l2, key c = key p → p.dist ≤ c.dist) := by
+  unfold dedupByKey at hp
+  obtain ⟨g, hg, hmin⟩ := List.mem_filterMap.1 hp
+  obtain ⟨x, hx, rfl⟩ := (mem_groupAdj_sorted key (isort_sorted key ps) g).1 hg
+  rw [filter_isort] at hmin
+  obtain ⟨l1, l2, e, h1, h2⟩ := minBy?_split Pr.dist hmin
+  have hpk : key p = key x := by
+    have : p ∈ ps.filter (fun y => decide (key y = key x)) := by rw [e]; simp
+    simpa using (List.mem_filter.1 this).2
+  rw [← hpk] at e
+  obtain ⟨m1, m2', rfl, e1, e2⟩ := List.filter_eq_append_iff.1 e
+  obtain ⟨n1, n2, rfl, hn1, _, e3⟩ := List.filter_eq_cons_iff.1 e2
+  refine ⟨m1 ++ n1, n2, by simp, ?_, ?_⟩
+  · intro c hc hk
+    rcases List.mem_append.1 hc with hc | hc
+    · apply h1
+      rw [← e1]
+      exact List.mem_filter.2 ⟨hc, by simp [hk]⟩
+    · exact absurd (by simp [hk]) (hn1 c hc)
+  · intro c hc hk
+    apply h2
+    rw [← e3]
+    exact List.mem_filter.2 ⟨hc, by simp [hk]⟩
+
+theorem dedupByKey_subset {ps : List Pr} {p : Pr} (hp : p ∈ dedupByKey key ps) : p ∈ ps := by
+  obtain ⟨l1, l2, rfl, _, _⟩ := dedupByKey_firstMin key hp
+  simp
+
+/-- minimality of a survivor, strict against anything generated strictly earlier
+    (`g` is any quantity along which `ps` is non-decreasing) -/
+theorem dedupByKey_spec {ps : List Pr} {p : Pr} (g : Pr → Int)
+    (hs : ps.Pairwise (fun a b => g a ≤ g b)) (hp : p ∈ dedupByKey key ps) :
+    ∀ c ∈ ps, key c = key p → p.dist ≤ c.dist ∧ (g c < g p → p.dist < c.dist) := by
+  obtain ⟨l1, l2, rfl, h1, h2⟩ := dedupByKey_firstMin key hp
+  intro c hc hk
+  have hs' := (List.pairwise_append.1 hs).2.1
+  rw [List.pairwise_cons] at hs'
+  rcases List.mem_append.1 hc with hc | hc
+  · have := h1 c hc hk
+    exact ⟨by omega, fun _ => this⟩
+  · rcases List.mem_cons.1 hc with rfl | hc
+    · exact ⟨Int.le_refl _, fun h => by omega⟩
+    · have := hs'.1 c hc
+      exact ⟨h2 c hc hk, fun h => by omega⟩
+
+/-- the unique strict minimum of its key class survives `dedupByKey` -/
+theorem mem_dedupByKey_of_unique_min {ps : List Pr} {c : Pr} (hc : c ∈ ps)
+    (hmin : ∀ c' ∈ ps, key c' = key c → c' ≠ c → c.dist < c'.dist) :
+    c ∈ dedupByKey key ps := by
+  unfold dedupByKey
+  refine List.mem_filterMap.2 ⟨(isort key ps).filter (fun y => decide (key y = key c)), ?_, ?_⟩
+  · exact (mem_groupAdj_sorted key (isort_sorted key ps) _).2 ⟨c, (mem_isort key).2 hc, rfl⟩
+  · apply minBy?_of_unique_min
+    · exact List.mem_filter.2 ⟨(mem_isort key).2 hc, by simp⟩
+    · intro c' hc' hne
+      obtain ⟨h1, h2⟩ := List.mem_filter.1 hc'
+      exact hmin c' ((mem_isort key).1 h1) (by simpa using h2) hne
+
+end Dedup
+
+/-! ## Labels, windows, candidates -/
+section Model
+
+theorem inj_of_pairwise_ne {β : Type} {f : β → Int} {L : List β}
+    (h : L.Pairwise (fun a b => f a ≠ f b)) : ∀ a ∈ L, ∀ b ∈ L, f a = f b → a = b := by
+  induction h with
+  | nil => simp
+  | cons hx _ ih =>
+    intro a ha b hb e
+    rcases List.mem_cons.1 ha with ha' | ha' <;> rcases List.mem_cons.1 hb with hb' | hb'
+    · rw [ha', hb']
+    · subst ha'
+      exact absurd e (hx b hb')
+    · subst hb'
+      exact absurd e.symm (hx a ha')
+    · exact ih a ha' b hb' e
+
+theorem labelsFwd_pos (i : Int) (ps : List Int) : (labelsFwd i ps).map Lbl.pos = ps := by
+  induction ps generalizing i with
+  | nil => rfl
+  | cons p ps ih => simp [labelsFwd, ih]
+
+theorem labelsFwd_site_ge (i : Int) (ps : List Int) : ∀ l ∈ labelsFwd i ps, i ≤ l.site := by
+  induction ps generalizing i with
+  | nil => simp [labelsFwd]
+  | cons p ps ih =>
+    intro l hl
+    simp only [labelsFwd, List.mem_cons] at hl
+    rcases hl with rfl | hl
+    · exact Int.le_refl _
+    · have := ih (i + 1) l hl
+      omega
+
+theorem labelsFwd_site_pairwise (i : Int) (ps : List Int) :
+    (labelsFwd i ps).Pairwise (fun a b => a.site ≠ b.site) := by
+  induction ps generalizing i with
+  | nil => exact List.Pairwise.nil
+  | cons p ps ih =>
+    simp only [labelsFwd]
+    refine List.pairwise_cons.2 ⟨?_, ih (i + 1)⟩
+    intro l hl
+    have := labelsFwd_site_ge (i + 1) ps l hl
+    show i ≠ l.site
+    omega
+
+theorem labelsRev_pos (i e : Int) (ps : List Int) :
+    (labelsRev i e ps).map Lbl.pos = ps.map (fun p => e - p) := by
+  induction ps generalizing i with
+  | nil => rfl
+  | cons p ps ih => simp [labelsRev, ih]
+
+theorem labelsRev_site_le (i e : Int) (ps : List Int) : ∀ l ∈ labelsRev i e ps, l.site ≤ i := by
+  induction ps generalizing i with
+  | nil => simp [labelsRev]
+  | cons p ps ih =>
+    intro l hl
+    simp only [labelsRev, List.mem_cons] at hl
+    rcases hl with rfl | hl
+    · exact Int.le_refl _
+    · have := ih (i - 1) l hl
+      omega
+
+theorem labelsRev_site_pairwise (i e : Int) (ps : List Int) :
+    (labelsRev i e ps).Pairwise (fun a b => a.site ≠ b.site) := by
+  induction ps generalizing i with
+  | nil => exact List.Pairwise.nil
+  | cons p ps ih =>
+    simp only [labelsRev]
+    refine List.pairwise_cons.2 ⟨?_, ih (i - 1)⟩
+    intro l hl
+    have := labelsRev_site_le (i - 1) e ps l hl
+    show i ≠ l.site
+    omega
+
+theorem labels_site_pairwise (m : OMap) (rev : Bool) :
+    (m.labels rev).Pairwise (fun a b => a.site ≠ b.site) := by
+  unfold OMap.labels
+  split
+  · exact labelsRev_site_pairwise _ _ _
+  · exact labelsFwd_site_pairwise _ _
+
+theorem labels_pos_sorted (m : OMap) (rev : Bool) (h : Ascending m.positions) :
+    (m.labels rev).Pairwise (fun a b => a.pos ≤ b.pos) := by
+  have key : ∀ L : List Lbl, (L.map Lbl.pos).Pairwise (· ≤ ·) → L.Pairwise (fun a b => a.pos ≤ b.pos) :=
+    fun L hL => List.pairwise_map.1 hL
+  apply key
+  unfold OMap.labels
+  split
+  · rw [labelsRev_pos, List.pairwise_map, List.pairwise_reverse]
+    exact List.Pairwise.imp (fun {a b} (hab : a ≤ b) => by omega) h
+  · rw [labelsFwd_pos]
+    exact h
+
+theorem mem_dropWhile_sorted {xs : List Lbl} (hs : xs.Pairwise (fun a b => a.pos ≤ b.pos))
+    (lo : Int) (l : Lbl) :
+    l ∈ xs.dropWhile (fun x => decide (x.pos < lo)) ↔ l ∈ xs ∧ lo ≤ l.pos := by
+  induction xs with
+  | nil => simp
+  | cons x xs ih =>
+    rw [List.pairwise_cons] at hs
+    rw [List.dropWhile_cons]
+    by_cases h : x.pos < lo
+    · simp only [h, decide_true, if_true, ih hs.2, List.mem_cons]
+      constructor
+      · rintro ⟨h1, h2⟩
+        exact ⟨Or.inr h1, h2⟩
+      · rintro ⟨rfl | h1, h2⟩
+        · omega
+        · exact ⟨h1, h2⟩
+    · simp only [h, decide_false, Bool.false_eq_true, if_false, List.mem_cons]
+      constructor
+      · rintro (rfl | h1)
+        · exact ⟨Or.inl rfl, by omega⟩
+        · have := hs.1 l h1
+          exact ⟨Or.inr h1, by omega⟩
+      · rintro ⟨h1, _⟩
+        exact h1
+
+theorem mem_takeWhile_sorted {xs : List Lbl} (hs : xs.Pairwise (fun a b => a.pos ≤ b.pos))
+    (hi : Int) (l : Lbl) :
+    l ∈ xs.takeWhile (fun x => decide (x.pos ≤ hi)) ↔ l ∈ xs ∧ l.pos ≤ hi := by
+  induction xs with
+  | nil => simp
+  | cons x xs ih =>
+    rw [List.pairwise_cons] at hs
+    rw [List.takeWhile_cons]
+    by_cases h : x.pos ≤ hi
+    · simp only [h, decide_true, if_true, List.mem_cons, ih hs.2]
+      constructor
+      · rintro (rfl | ⟨h1, h2⟩)
+        · exact ⟨Or.inl rfl, h⟩
+        · exact ⟨Or.inr h1, h2⟩
+      · rintro ⟨rfl | h1, h2⟩
+        · exact Or.inl rfl
+        · exact Or.inr ⟨h1, h2⟩
+    · simp only [h, decide_false, List.mem_cons]
+      constructor
+      · intro h1
+        simp at h1
+      · rintro ⟨rfl | h1, h2⟩
+        · omega
+        · have := hs.1 l h1
+          omega
+
+theorem window_sublist (lo hi : Int) (xs : List Lbl) : (window lo hi xs).Sublist xs :=
+  (List.takeWhile_sublist _).trans (List.dropWhile_sublist _)
+
+theorem mem_window {xs : List Lbl} (hs : xs.Pairwise (fun a b => a.pos ≤ b.pos))
+    (lo hi : Int) (l : Lbl) :
+    l ∈ window lo hi xs ↔ l ∈ xs ∧ lo ≤ l.pos ∧ l.pos ≤ hi := by
+  unfold window
+  rw [mem_takeWhile_sorted (hs.sublist (List.dropWhile_sublist _)), mem_dropWhile_sorted hs,
+    and_assoc]
+
+theorem mem_candidates {md start it : Int} {refs qs : List Lbl}
+    (hq : qs.Pairwise (fun a b => a.pos ≤ b.pos)) (c : Pr) :
+    c ∈ candidates md start it refs qs ↔
+      c.r ∈ refs ∧ c.q ∈ qs ∧ c.shift = c.q.pos - (c.r.pos - start) ∧
+        -md ≤ c.shift ∧ c.shift ≤ md ∧ c.src = it := by
+  unfold candidates
+  simp only [List.mem_flatMap, List.mem_map, mem_window hq]
+  constructor
+  · rintro ⟨r, hr, q, ⟨hq1, h2, h3⟩, rfl⟩
+    refine ⟨hr, hq1, rfl, ?_, ?_, rfl⟩ <;> simp only <;> omega
+  · rintro ⟨h1, h2, h3, h4, h5, h6⟩
+    refine ⟨c.r, h1, c.q, ⟨h2, by omega, by omega⟩, ?_⟩
+    cases c
+    simp_all
+
+theorem candidates_pairwise {md start it : Int} {refs qs : List Lbl}
+    (hr : refs.Pairwise (fun a b => a.pos ≤ b.pos)) :
+    (candidates md start it refs qs).Pairwise (fun a b => a.r.pos ≤ b.r.pos) := by
+  unfold candidates
+  rw [List.pairwise_flatMap]
+  constructor
+  · intro r _
+    rw [List.pairwise_map]
+    exact List.pairwise_of_forall (fun _ _ => Int.le_refl _)
+  · refine List.Pairwise.imp ?_ hr
+    intro a b hab x hx y hy
+    obtain ⟨_, _, rfl⟩ := List.mem_map.1 hx
+    obtain ⟨_, _, rfl⟩ := List.mem_map.1 hy
+    exact hab
+
+theorem pair_mem_engineAlign (md : Int) (ref qry : OMap) (start stop : Int) (rev : Bool)
+    (it : Int) (p : Pr) :
+    APos.pair p ∈ engineAlign md ref qry start stop rev it ↔
+      p ∈ dedup (candidates md start it (refWindow md ref start stop) (qry.labels rev)) := by
+  unfold engineAlign
+  simp [mem_isort, unpaired]
+
+end Model
+
+/-! ## The two C12 theorems -/
 
 theorem engine_order_preserving (md : Int) (ref qry : OMap) (start stop : Int) (rev : Bool) (it : Int)
     (hr : Ascending ref.positions) (hq : Ascending qry.positions) (p1 p2 : Pr)
     (h1 : APos.pair p1 ∈ engineAlign md ref qry start stop rev it)
     (h2 : APos.pair p2 ∈ engineAlign md ref qry start stop rev it)
     (hlt : p1.r.pos < p2.r.pos) : p1.q.pos ≤ p2.q.pos := by
-  sorry
+  rw [pair_mem_engineAlign] at h1 h2
+  have hqs := labels_pos_sorted qry rev hq
+  have hrs : (refWindow md ref start stop).Pairwise (fun a b => a.pos ≤ b.pos) :=
+    (labels_pos_sorted ref false hr).sublist (window_sublist _ _ _)
+  generalize refWindow md ref start stop = refs at *
+  generalize qry.labels rev = qs at *
+  have hcp := candidates_pairwise (md := md) (start := start) (it := it) (qs := qs) hrs
+  unfold dedup at h1 h2
+  have s1 := dedupByKey_subset _ h1
+  have s2 := dedupByKey_subset _ h2
+  obtain ⟨r1in, q1in, sh1, lo1, hi1, _⟩ := (mem_candidates hqs p1).1 (dedupByKey_subset _ s1)
+  obtain ⟨r2in, q2in, sh2, lo2, hi2, _⟩ := (mem_candidates hqs p2).1 (dedupByKey_subset _ s2)
+  have sp1 := dedupByKey_spec (fun p => p.q.site) (fun p => p.r.pos) hcp s1
+  have sp2 := dedupByKey_spec (fun p => p.q.site) (fun p => p.r.pos) hcp s2
+  apply Classical.byContradiction
+  intro hcon
+  have hcon : p2.q.pos < p1.q.pos := by omega
+  by_cases hc : p2.r.pos - start ≤ p1.q.pos
+  · -- (r2, q1) is a candidate strictly closer to q1 than (r1, q1)
+    have hcm : ({ r := p2.r, q := p1.q, shift := p1.q.pos - (p2.r.pos - start), src := it } : Pr) ∈
+        candidates md start it refs qs :=
+      (mem_candidates hqs _).2 ⟨r2in, q1in, rfl, by simp only; omega, by simp only; omega, rfl⟩
+    have a1 := (sp1 _ hcm rfl).1
+    simp only [Pr.dist] at a1
+    omega
+  · have hcm : ({ r := p2.r, q := p1.q, shift := p1.q.pos - (p2.r.pos - start), src := it } : Pr) ∈
+        candidates md start it refs qs :=
+      (mem_candidates hqs _).2 ⟨r2in, q1in, rfl, by simp only; omega, by simp only; omega, rfl⟩
+    have a1 := (sp1 _ hcm rfl).1
+    have a2 : p2.dist < ((p2.q.pos - (p1.r.pos - start)).natAbs : Int) := by
+      by_cases hc' : -md ≤ p2.q.pos - (p1.r.pos - start) ∧ p2.q.pos - (p1.r.pos - start) ≤ md
+      · have hcm' : ({ r := p1.r, q := p2.q, shift := p2.q.pos - (p1.r.pos - start), src := it } : Pr) ∈
+            candidates md start it refs qs :=
+          (mem_candidates hqs _).2 ⟨r1in, q2in, rfl, hc'.1, hc'.2, rfl⟩
+        exact (sp2 _ hcm' rfl).2 hlt
+      · simp only [Pr.dist]
+        omega
+    simp only [Pr.dist] at a1 a2
+    omega
 
 theorem engine_mutual_nearest (md : Int) (ref qry : OMap) (start stop : Int) (rev : Bool) (it : Int)
     (hr : Ascending ref.positions) (hq : Ascending qry.positions) (r q : Lbl)
@@ -16,6 +585,49 @@ theorem engine_mutual_nearest (md : Int) (ref qry : OMap) (start stop : Int) (re
     (hnr : ∀ r' ∈ refWindow md ref start stop, r' ≠ r → (offset start r q).natAbs < (offset start r' q).natAbs)
     (hnq : ∀ q' ∈ qry.labels rev, q' ≠ q → (offset start r q).natAbs < (offset start r q').natAbs) :
     ∃ p, APos.pair p ∈ engineAlign md ref qry start stop rev it ∧ p.r = r ∧ p.q = q := by
-  sorry
+  have _ := hr  -- not needed: only sublist-ness of the reference window is used
+  refine ⟨{ r := r, q := q, shift := offset start r q, src := it }, ?_, rfl, rfl⟩
+  rw [pair_mem_engineAlign]
+  have hqs := labels_pos_sorted qry rev hq
+  have hqinj := inj_of_pairwise_ne (labels_site_pairwise qry rev)
+  have hrinj : ∀ a ∈ refWindow md ref start stop, ∀ b ∈ refWindow md ref start stop,
+      a.site = b.site → a = b :=
+    inj_of_pairwise_ne ((labels_site_pairwise ref false).sublist (window_sublist _ _ _))
+  generalize refWindow md ref start stop = refs at *
+  generalize qry.labels rev = qs at *
+  have hcm : ({ r := r, q := q, shift := offset start r q, src := it } : Pr) ∈
+      candidates md start it refs qs :=
+    (mem_candidates hqs _).2 ⟨hrw, hql, rfl, by simp only; omega, by simp only; omega, rfl⟩
+  unfold dedup
+  have hs1 : ({ r := r, q := q, shift := offset start r q, src := it } : Pr) ∈
+      dedupByKey (fun p => p.q.site) (candidates md start it refs qs) := by
+    apply mem_dedupByKey_of_unique_min _ hcm
+    intro c' hc' hk hne
+    obtain ⟨r'in, q'in, sh', _, _, src'⟩ := (mem_candidates hqs c').1 hc'
+    have hq' : c'.q = q := hqinj _ q'in _ hql hk
+    have hr' : c'.r ≠ r := by
+      intro e
+      apply hne
+      cases c'
+      simp only [offset] at *
+      simp_all
+    have := hnr _ r'in hr'
+    simp only [Pr.dist, sh', hq']
+    simp only [offset] at this ⊢
+    omega
+  apply mem_dedupByKey_of_unique_min _ hs1
+  intro c' hc' hk hne
+  obtain ⟨r'in, q'in, sh', _, _, src'⟩ := (mem_candidates hqs c').1 (dedupByKey_subset _ hc')
+  have hr' : c'.r = r := hrinj _ r'in _ hrw hk
+  have hq' : c'.q ≠ q := by
+    intro e
+    apply hne
+    cases c'
+    simp only [offset] at *
+    simp_all
+  have := hnq _ q'in hq'
+  simp only [Pr.dist, sh', hr']
+  simp only [offset] at this ⊢
+  omega
 
-end Coma.Proofs
+end Coma.Proofs.PO
